@@ -103,9 +103,20 @@ impl OrderedSet {
     /// Removes all elements in the set, while preserving its capacity.
     #[inline]
     pub fn clear(&mut self) {
-        self.inner.clear();
-        self.inner.shrink_to_fit();
-        self.empty_count = 0;
+        if self.lock == 0 {
+            self.inner.clear();
+            self.inner.shrink_to_fit();
+            self.empty_count = 0;
+        } else {
+            // Live iterators address the entries by index: keep every position and empty it, so
+            // that values added after the clear are still visited.
+            let len = self.inner.len();
+            self.inner.clear();
+            for i in 0..len {
+                self.inner.insert(MapKey::Empty(i));
+            }
+            self.empty_count = len;
+        }
     }
 
     /// Checks if a given value is present in the set
